@@ -68,7 +68,7 @@ func VerifC06UDPAsync() {
 // and leaves the receive-buffer pool consistent: the buffer is released once, so two
 // later messages never share one buffer.
 //
-//verif:harness name=H06g-tcp-short tier=quick,thorough bounds="framed message announcing 12..40 bytes but carrying 0..11 of them (or ending inside the length prefix); then two buffers are taken from the pool" reach=done,short-read
+//verif:harness name=H06g-tcp-short tier=quick,thorough bounds="framed message announcing 12..40 bytes but carrying 0..11 of them (or ending inside the length prefix); then a 43-byte UDP query is served by the same server and two buffers are taken from the TCP pool" reach=done,short-read
 //verif:assume sync.Pool hands released buffers back
 func VerifC06TCPShort() {
 	verifPoolMode(1)
@@ -91,6 +91,16 @@ func VerifC06TCPShort() {
 	verifAssert("short-message-is-an-error", err != nil)
 	verifAssert("short-message-reaches-no-handler-and-gets-no-response", len(h.reqs) == 0 && len(conn.written) == 0)
 	verifReach("short-read")
+	// a UDP query arriving afterwards on the same server is served as by a fresh one
+	q := &dns.Msg{}
+	q.SetQuestion("a-longer-name.example.org.", dns.TypeA)
+	q.Id = nondetU16()
+	pkt, perr := q.Pack()
+	verifAssume(perr == nil)
+	pc := &verifPacketConn{data: pkt}
+	_ = s.acceptUDPMsg(context.Background(), pc)
+	s.wg.Wait()
+	verifAssert("later-udp-query-served-as-by-a-fresh-server", len(h.reqs) == 1 && len(pc.written) == 1 && h.reqs[0].Id == q.Id && h.reqs[0].Question[0].Name == "a-longer-name.example.org.")
 	a := s.tcpPool.Get()
 	b := s.tcpPool.Get()
 	verifAssert("buffer-released-at-most-once", a != b)
